@@ -3,10 +3,18 @@ package main
 import (
 	"bytes"
 	"crypto/sha256"
+	"encoding/hex"
 	"fmt"
+	"io"
+	"math"
 	"math/rand"
+	"os"
 	"sort"
 	"strconv"
+
+	"github.com/klauspost/compress/zstd"
+	"github.com/nspcc-dev/neofs-node/pkg/local_object_storage/blobstor/common"
+	"github.com/nspcc-dev/neofs-node/pkg/local_object_storage/blobstor/fstree"
 
 	"github.com/nspcc-dev/neofs-node/pkg/util/verifexport"
 	"github.com/nspcc-dev/neofs-sdk-go/checksum"
@@ -24,7 +32,7 @@ import (
 	"verifharness/internal/kit"
 )
 
-func init() { commands["wire"] = wire }
+func init() { commands["wire"] = wire; commands["wirefs"] = wirefs }
 
 // wField is one field of an abstract message layout (spec/Wire.tla): number, wire type (0 varint, 2 LEN, others
 // only for malformed variants), byte length of the tag varint and of the length varint, value length, nested layout.
@@ -187,7 +195,9 @@ func protoEq(a, b proto.Message) bool {
 // boundsAgree: the non-missing bounds decode to the given reference messages
 // (lenient: on a truncated buffer a field that was cut off may be reported missing)
 func boundsAgree(buf []byte, idf, sigf, hdrf bnd, id *refs.ObjectID, sig *refs.Signature, hdr *protoobject.Header, lenient bool) bool {
-	in := func(f bnd) bool { return f.From >= 0 && f.From <= f.ValueFrom && f.ValueFrom <= f.To && f.To <= len(buf) }
+	in := func(f bnd) bool {
+		return f.From >= 0 && f.From <= f.ValueFrom && f.ValueFrom <= f.To && f.To <= len(buf)
+	}
 	if !in(idf) || !in(sigf) || !in(hdrf) {
 		return false
 	}
@@ -442,7 +452,7 @@ func wire(args []string) {
 	}
 	for i := 0; i < nObj; i++ {
 		withParent := i%2 == 0
-		plen := []int{0, 1, 5, 200, 1000}[i%5]
+		plen := []int{5, 0, 200, 1, 1000}[i%5]
 		o := randObject(r, withParent, plen)
 		objFields := decompose(o.Marshal())
 		// expose the header and its split message as nested layouts
@@ -460,6 +470,37 @@ func wire(args []string) {
 		for _, v := range variantsOf(objFields, r, 5, thorough || i == 0) {
 			full := encode(v.fs)
 			w.Emit(layoutRecord("obj", v.name, v.fs, full, cutPoints(v.fs, len(full), every && v.name == "canonical", r)))
+		}
+		// object level with variants of the split header (the parent walk must stay inside it, whatever follows)
+		for j := range objFields {
+			if objFields[j].Num != protoobject.FieldObjectHeader {
+				continue
+			}
+			for k := range objFields[j].Sub {
+				if objFields[j].Sub[k].Num != protoobject.FieldHeaderSplit {
+					continue
+				}
+				base := objFields[j].Sub[k].Sub
+				svs := variantsOf(base, r, 9, thorough || i == 0)
+				for _, maxNum := range []int{3, 2, 1} { // split headers WITHOUT a parent header: only fields <= maxNum
+					var keep []wField
+					for _, f := range cloneFields(base) {
+						if f.Num <= maxNum {
+							keep = append(keep, f)
+						}
+					}
+					svs = append(svs, variant{"dropgt" + strconv.Itoa(maxNum), keep})
+				}
+				for _, sv := range svs {
+					o2 := cloneFields(objFields)
+					o2[j].Sub[k].Sub = sv.fs
+					if len(sv.fs) == 0 {
+						o2[j].Sub[k].Sub, o2[j].Sub[k].val = []wField{}, nil
+					}
+					full := encode(o2)
+					w.Emit(layoutRecord("obj", "split:"+sv.name, o2, full, cutPoints(o2, len(full), false, r)))
+				}
+			}
 		}
 		// header level
 		var hdrFields []wField
@@ -527,4 +568,110 @@ func layoutRecord(level, variant string, fs []wField, full []byte, cuts []int) k
 		}
 	}
 	return kit.M{"level": level, "variant": variant, "enc": isEncoding(variant), "fields": fs, "total": len(full), "fullOK": fullOK, "runs": runs}
+}
+
+// ---------------------------------------------------------------- fstree head paths (fstree/head.go)
+
+// wirefs <out.ndjson>: objects whose ID + signature + header grow up to the maximum are stored in a real FSTree,
+// plain and as legacy zstd-compressed files (one object per file and combined files), and the header fast paths
+// (Head, GetStream, ReadHeader, ReadObjectParts) are compared with full decoding (Get).
+func wirefs(args []string) {
+	w := kit.NewW(args[0])
+	r := kit.Rand(42)
+	enc, err := zstd.NewWriter(nil)
+	kit.Must(err)
+	defer enc.Close()
+	attrLens := []int{100, 4000, 6500, 7400, 7800, 8000, 8100, 8168}
+	if kit.Thorough() {
+		for a := 7000; a < 8168; a += 97 {
+			attrLens = append(attrLens, a)
+		}
+	}
+	for ci, combined := range []bool{false, true} {
+		dir, err := os.MkdirTemp("", "ec-wirefs-")
+		kit.Must(err)
+		opts := []fstree.Option{fstree.WithPath(dir), fstree.WithNoSync(true)}
+		if !combined {
+			opts = append(opts, fstree.WithCombinedCountLimit(1))
+		}
+		fst := fstree.New(opts...)
+		kit.Must(fst.Open(false))
+		kit.Must(fst.Init(common.ID{}))
+		for _, attrRaw := range attrLens {
+			for _, compressed := range []bool{true, false} {
+				for _, plen := range []int{64 << 10, 3000} {
+					obj := maxHeaderObject(r, attrRaw, plen)
+					bin := obj.Marshal()
+					stored := bin
+					if compressed {
+						stored = enc.EncodeAll(bin, nil)
+					}
+					addr := obj.Address()
+					kit.Must(fst.Put(addr, stored))
+					fs := decompose(bin)
+					encode(fs)
+					rec := kit.M{"level": "fs", "variant": "attr" + strconv.Itoa(attrRaw), "enc": true, "compressed": compressed, "combined": combined,
+						"fields": fs, "total": len(bin), "stored": len(stored), "np": len(obj.CutPayload().Marshal()), "runs": []kit.M{}}
+					rec["fs"] = fsRun(fst, addr, obj)
+					rec["fullOK"] = rec["fs"].(kit.M)["getOK"]
+					w.Emit(rec)
+				}
+			}
+		}
+		_ = fst.Close()
+		_ = os.RemoveAll(dir)
+		_ = ci
+	}
+	w.Close()
+}
+
+func maxHeaderObject(r *rand.Rand, attrRawLen, payloadLen int) object.Object {
+	rb := func(n int) []byte { b := make([]byte, n); r.Read(b); return b }
+	sig := neofscrypto.NewSignatureFromRawKey(math.MaxInt32, rb(neofscrypto.MaxVerificationScriptLength), rb(neofscrypto.MaxInvocationScriptLength))
+	var obj object.Object
+	obj.SetID(randID(r))
+	var c cid.ID
+	kit.Must(c.Decode(rb(32)))
+	obj.SetContainerID(c)
+	obj.SetSignature(&sig)
+	obj.SetAttributes(object.NewAttribute("attr", hex.EncodeToString(rb(attrRawLen))))
+	obj.SetPayload(rb(payloadLen))
+	obj.SetPayloadSize(uint64(payloadLen))
+	return obj
+}
+
+func fsRun(fst *fstree.FSTree, addr oid.Address, obj object.Object) (out kit.M) {
+	out = kit.M{"getOK": false, "headOK": false, "headEq": false, "streamOK": false, "streamEq": false, "rhOK": false, "rhCovers": false,
+		"partsOK": false, "partsEq": false, "panic": false}
+	defer func() {
+		if recover() != nil {
+			out["panic"] = true
+		}
+	}()
+	full, err := fst.Get(addr)
+	if err != nil || !bytes.Equal(full.Marshal(), obj.Marshal()) {
+		return out
+	}
+	out["getOK"] = true
+	want := full.CutPayload().Marshal()
+	if hdr, err := fst.Head(addr); err == nil {
+		out["headOK"], out["headEq"] = true, bytes.Equal(hdr.Marshal(), want)
+	}
+	if hdr, stream, err := fst.GetStream(addr); err == nil {
+		pld, rerr := io.ReadAll(stream)
+		_ = stream.Close()
+		out["streamOK"], out["streamEq"] = true, bytes.Equal(hdr.CutPayload().Marshal(), want) && rerr == nil && bytes.Equal(pld, full.Payload())
+	}
+	buf := make([]byte, 2*verifexport.WireNonPayloadFieldsBufferLength)
+	if n, err := fst.ReadHeader(addr, buf); err == nil {
+		out["rhOK"], out["rhCovers"] = true, n >= len(want) && bytes.HasPrefix(buf[:n], want)
+	}
+	var hdrLen int
+	if n, stream, err := fst.ReadObjectParts(buf, addr, common.PayloadRange{}, func(b []byte) error { hdrLen = len(b); return nil }); err == nil {
+		rest, rerr := io.ReadAll(stream)
+		_ = stream.Close()
+		out["partsOK"] = true
+		out["partsEq"] = rerr == nil && hdrLen == full.HeaderLen() && bytes.Equal(full.Marshal(), append(buf[:n:n], rest...))
+	}
+	return out
 }
